@@ -263,6 +263,72 @@ def run_prog(ctx, prog):
     return {'prog': rec['prog'], 'units': [u['cls'] for u in d['ugens']]}
 
 
+DONE_UNITS = [('line', 'Line', 'kr'), ('line', 'Line', 'ar'), ('line', 'XLine', 'kr'), ('line', 'XLine', 'ar'),
+              ('envgen', 'Linen', 'kr'), ('envgen', 'EnvGen', 'kr'), ('oscillators', 'LFGauss', 'ar')]
+
+
+def stateful_scenario(ctx):
+    """units that free or pause the synth when they finish (a done action) are side-effecting whether or not their
+    output is read: they stay in the definition.  The list is written from the server's unit documentation, not read
+    from the library's own purity marker."""
+    import importlib
+    ocl, iou, nse = _ug()
+    from sc3.synth import synthdef as sdf
+    from sc3.synth import envelope as env
+    k = ctx.choose('unit', len(DONE_UNITS))
+    variant = ctx.choose('variant', 3)       # 0 unread, 1 read only by an unread pure operator, 2 read by the output
+    mod, name, rate = DONE_UNITS[k]
+    cls = getattr(importlib.import_module('sc3.synth.ugens.' + mod), name)
+    c1 = ctx.real('c1', 1, 10)
+    rec = {'mode': 'nrt', 'kind': 'stateful', 'sel': {'unit': k, 'variant': variant}, 'names': ['c1']}
+
+    def g():
+        ctor = getattr(cls, rate)
+        if name == 'EnvGen':
+            u = ctor(env.Env.perc(), done_action=2)
+        elif name == 'LFGauss':
+            u = ctor(c1, 0.1, done_action=2)
+        elif name == 'Linen':
+            u = ctor(1, 0.01, 1, c1, done_action=2)
+        else:
+            u = ctor(1, 2, c1, done_action=2)
+        sig = nse.LFNoise0.ar(301)
+        if variant == 1:
+            u * 2
+        if variant == 2 and rate == 'ar':
+            sig = sig * u
+        iou.Out.ar(0, sig)
+    with symx.shims():
+        try:
+            sd, b = sdsym.build_bytes('st', g)
+        except (PathAbort, Inconclusive, Violation):
+            raise
+        except Exception as e:
+            raise Violation(f'{name}.{rate} with a done action does not build: {type(e).__name__}: {e}', None,
+                            {'key': 'c01:stateful:raises', 'replay': rec})
+    d = scgf.parse(b)[0]
+    n = sum(1 for u in d['ugens'] if u['cls'] == name)
+    if n != 1:
+        raise Violation(f'{name}.{rate}(..., done_action=2) ' + ['whose output is not read', 'read only by an unread '
+                        'operator', 'read by the output'][variant] + f' occurs {n} times in the definition (units '
+                        f'{[u["cls"] for u in d["ugens"]]}): a unit that frees the synth was dropped', None,
+                        {'key': 'c01:stateful:dropped', 'replay': rec})
+    ctx.obligations += 1
+    ctx.discharged += 1
+    ctx.note('stateful')
+    return {'unit': name, 'rate': rate, 'variant': variant}
+
+
+def job_stateful(j):
+    st = explore(stateful_scenario, max_paths=2000, timeout_ms=10000, stop_on_violation=True)
+    d = st.as_dict()
+    for v in d['violations']:
+        rec = v['data']['replay']
+        rec['values'] = {n: v['model'].get(n) for n in rec.get('names', [])} if v.get('model') else {}
+        rec['what'] = v['what']
+    return d
+
+
 def job(j):
     progs = j['progs']
     tot = symx.Stats()
@@ -399,6 +465,11 @@ def programs(tier):
     tmpl.append(([('+', 'A', 'B'), ('*', 0, 'c1'), ('+', 0, 'K')], [1, 2]))
     tmpl.append(([('*', 'A', 'c1'), ('+', 0, 'B'), ('+', 0, 'c2')], [1, 2]))
     tmpl.append(([('+', 'A', 'B'), ('+', 0, 'K')], [0, 1]))
+    # a 3-term sum (fused by the optimiser) that is read twice: by a further + (on either side) and by another unit
+    for extra in ('P', 'B'):
+        tmpl.append(([('+', 'A', 'B'), ('+', 0, 'K'), ('+', extra, 1), ('*', 1, 'c1')], [2, 3]))
+        tmpl.append(([('+', 'A', 'B'), ('+', 0, 'K'), ('+', 1, extra), ('*', 1, 'c1')], [2, 3]))
+        tmpl.append(([('+', 'A', 'B'), ('+', 0, 'K'), ('+', extra, 1), ('-', 1, 'c1')], [2, 3]))
     for nodes, outs in tmpl:
         p = {'nodes': nodes, 'outs': outs}
         if not well_formed(p):
@@ -432,6 +503,24 @@ def replay(rec):
     """Rebuild with the model's constants on the real code; evaluate source and compiled graphs numerically at
     several leaf valuations (exact rationals) and compare; repeat the structural checks."""
     from fractions import Fraction
+    if rec.get('kind') == 'stateful':
+        class C:
+            obligations = discharged = 0
+
+            def choose(self, name, n):
+                return int(rec['sel'][name])
+
+            def real(self, name, *a, **k):
+                v = rec.get('values', {}).get(name)
+                return float(v) if v is not None else 1.5
+
+            def note(self, s):
+                pass
+        try:
+            stateful_scenario(C())
+        except Violation as v:
+            return v.what
+        return None
     ocl, iou, nse = _ug()
     from sc3.synth import ugen as ugn, synthdef as sdf
     prog = rec['prog']
@@ -614,6 +703,9 @@ def main(tier, seed):
         shapes.update(r.get('shapes') or [])
         nprog += r.get('programs', 0)
     chk.programs = nprog
+    for r in run_jobs('vf.props.c01', 'job_stateful', [dict()], 'nrt'):
+        chk.add('stateful', r)
+    chk.require_notes('stateful', ['stateful'])
     need = ['MulAdd', 'Sum3', 'Sum4', 'UnaryOpUGen0', 'DC']
     for n in need:
         if not any(n in s for s in shapes):
